@@ -75,6 +75,6 @@ let handle check diff (toks : string list) (raw : string) : bool =
     if r.br_db_block then diff "CC" (raw ^ " db-block") "no database block consulted" "model consulted a database block";
     (match !last_cc with Some old -> Hashtbl.remove Hgdrv.nodes old | None -> ());
     last_cc := Some id;
-    Hashtbl.replace Hgdrv.nodes id { Hgdrv.st = r.br_st; shadow = Hashtbl.create 256; pools = NodeModel.pools0; self = self };
+    Hashtbl.replace Hgdrv.nodes id { Hgdrv.st = r.br_st; shadow = Hashtbl.create 256; core = Hgdrv.mk_core (z self) (map peer_of gen) r.br_st; self = self };
     true
   | _ -> false
